@@ -6,6 +6,7 @@ x/text's (abstract; the Go side reports what they returned).  Strings are lists 
 Core-only.
 -/
 import SfntV.Prelude.Bytes
+import SfntV.Model.NamesChoose
 
 namespace SfntV.Names
 
@@ -57,5 +58,61 @@ the private-use subtags in lower case (assumption about x/text, checked by corre
 def extString (script lang : List Nat) : List Nat :=
   [120, 45] ++ lowerS (trimSp script) ++
     (if trimSp lang = [] then [] else [45] ++ lowerS (trimSp lang))
+
+/-! ### tags without the `-x-` extension (the branch repaired in a8e5c74) -/
+
+/-- Go `<` on strings -/
+def lexLt (a b : List Nat) : Bool := !lexLe b a
+
+/-- one iteration of `for key, val := range tbl { if val == bcp && (cur == "" || key < cur) { cur = key } }` -/
+def stepRev (val : List Nat) (cur : List Nat) (p : List Nat × List Nat) : List Nat :=
+  if p.2 = val ∧ (cur = [] ∨ lexLt p.1 cur = true) then p.1 else cur
+
+/-- the reverse lookup in `langBcp47` / `scriptBcp47`; `order` = the map in Go's iteration order -/
+def revLookup (order : List (List Nat × List Nat)) (val : List Nat) : List Nat :=
+  order.foldl (stepRev val) []
+
+def hani : List Nat := [104, 97, 110, 105]
+def ZHP : List Nat := [90, 72, 80, 32]
+def ZHS : List Nat := [90, 72, 83, 32]
+def ZHT : List Nat := [90, 72, 84, 32]
+
+/-- `bcp47ToOtf` for a tag without `x` extension.  x/text is abstract; the Go side reports
+`kind` (1/2/3 = the tag equals `language.Chinese` / `SimplifiedChinese` / `TraditionalChinese`,
+0 = none of them), `rawLang` = `tag.Raw()`'s language and `script` = `tag.Script()`. -/
+def noExtToOtf (scriptOrder langOrder : List (List Nat × List Nat)) (kind : Nat)
+    (rawLang script : List Nat) : List Nat × List Nat :=
+  if kind = 1 then (hani, ZHP)
+  else if kind = 2 then (hani, ZHS)
+  else if kind = 3 then (hani, ZHT)
+  else (revLookup scriptOrder script, revLookup langOrder rawLang)
+
+/-- Go map lookup in a table literal -/
+def tagGet : List (List Nat × List Nat) → List Nat → Option (List Nat)
+  | [], _ => none
+  | (k, v) :: rest, x => if k = x then some v else tagGet rest x
+
+def undS : List Nat := [117, 110, 100]
+
+/-- `otfToBCP47` up to `language.Parse`: the string handed to the parser, `none` = the error
+"unknown script" / "unknown language" -/
+def otfToBCP47Str (scripts langs : List (List Nat × List Nat)) (script lang : List Nat) :
+    Option (List Nat) :=
+  match tagGet scripts script with
+  | none => none
+  | some bs =>
+    match tagGet langs lang with
+    | some bl => some (otfTagString bs bl script lang)
+    | none => if lang = [] then some (otfTagString bs undS script lang) else none
+
+/-- what x/text reports about a tag: its `x` extension string, or (kind, raw language, script) -/
+inductive TagView where
+  | ext (e : List Nat)
+  | plain (kind : Nat) (rawLang script : List Nat)
+
+/-- `bcp47ToOtf` on the view of a tag (`none` = the error "invalid x extension") -/
+def bcp47ToOtfView (scriptOrder langOrder : List (List Nat × List Nat)) : TagView → Option (List Nat × List Nat)
+  | .ext e => extToOtf e
+  | .plain k rl sc => some (noExtToOtf scriptOrder langOrder k rl sc)
 
 end SfntV.Names
